@@ -199,6 +199,50 @@ static void exec(void)
   sb_free(&sig);
 }
 
+/* ------------------------------------------------------------------ mode 2: objects handed out by the layered reads */
+static int l_files, l_entry, l_hidx;
+static char ldir0[400], ldir1[400];
+static void gen_layered(void) { l_files = 1 + mc_choose(7); l_entry = mc_choose(4); l_hidx = l_entry == 3 ? mc_choose(3) : 0; }
+static econf_file *rebuild_layered(void *arg)
+{
+  (void)arg;
+  econf_file *kf = NULL; econf_file **hist = NULL; size_t hn = 0;
+  econf_err rc;
+  switch (l_entry) {
+  case 0: rc = econf_readDirs(&kf, ldir0, ldir1, "cfg", "conf", "=", "#"); break;
+  case 1: { char opt[900]; snprintf(opt, sizeof opt, "PARSING_DIRS=%s:%s", ldir0, ldir1); rc = econf_newKeyFile_with_options(&kf, opt); if (!rc) rc = econf_readConfig(&kf, NULL, NULL, "cfg", "conf", "=", "#"); break; }
+  case 2: rc = econf_readDirsWithCallback(&kf, ldir0, ldir1, "cfg", "conf", "=", "#", NULL, NULL); break;
+  default:
+    rc = econf_readDirsHistory(&hist, &hn, ldir0, ldir1, "cfg", "conf", "=", "#");
+    if (rc == ECONF_SUCCESS) { for (size_t i = 0; i < hn; i++) { if ((int)i == l_hidx % (int)hn) kf = hist[i]; else econf_freeFile(hist[i]); } free(hist); }
+    break;
+  }
+  if (rc != ECONF_SUCCESS) { if (kf && l_entry != 3) econf_freeFile(kf); return NULL; }
+  return kf;
+}
+static void exec_layered(void)
+{
+  char sig[300], p[600];
+  static const char *EN[4] = { "econf_readDirs", "econf_readConfig(PARSING_DIRS)", "econf_readDirsWithCallback(NULL)", "element of econf_readDirsHistory" };
+  snprintf(sig, sizeof sig, "object from %s%s, files present: %s%s%s", EN[l_entry], l_entry == 3 ? (l_hidx == 0 ? " [first]" : l_hidx == 1 ? " [second]" : " [third]") : "",
+           (l_files & 1) ? "main " : "", (l_files & 2) ? "vendor-drop-in " : "", (l_files & 4) ? "local-drop-in" : "");
+  snprintf(mc_case_sig, sizeof mc_case_sig, "%s", sig);
+  mc_log("%s\n", sig);
+  snprintf(p, sizeof p, "%s/cfg.conf", ldir0); unlink(p);
+  const char *c0 = "n=Yes Please\n[A]\nx=TRUE # tc\n", *c1 = "[A]\nx=0x10\nxy= 7\n", *c2 = "# cb\nn=No\n[B]\ny=1\n  2\n";
+  if (l_files & 1) mc_write_file(p, c0, strlen(c0));
+  snprintf(p, sizeof p, "%s/cfg.conf.d/10-a.conf", ldir0); unlink(p);
+  if (l_files & 2) mc_write_file(p, c1, strlen(c1));
+  snprintf(p, sizeof p, "%s/cfg.conf.d/20-b.conf", ldir1); unlink(p);
+  if (l_files & 4) mc_write_file(p, c2, strlen(c2));
+  econf_file *kf = rebuild_layered(NULL);
+  mc_st->libcalls++;
+  if (!kf) mc_fail(sig, "layered read failed; %s", sig);
+  else { battery(kf, sig, rebuild_layered, NULL); econf_freeFile(kf); }
+  mc_st->compared++; mc_st->nontrivial++;
+  if (mc_want_sample()) mc_sample("%s : %d read-only calls, observation unchanged", sig, NRO);
+}
+
 int main(int argc, char **argv)
 {
   mc_args(argc, argv);
@@ -225,6 +269,16 @@ int main(int argc, char **argv)
       return failed ? 1 : 0;
     }
     bfs_run(depth, depth, 4000000);
+    mc_finish();
+    return 0;
+  }
+  if (mode == 2) {
+    snprintf(ldir0, sizeof ldir0, "%s/usr", mc_work); snprintf(ldir1, sizeof ldir1, "%s/etc", mc_work);
+    char cmd[1000]; snprintf(cmd, sizeof cmd, "mkdir -p %s/cfg.conf.d %s/cfg.conf.d", ldir0, ldir1);
+    if (system(cmd) != 0) mc_die("mkdir");
+    mc_split = 2;
+    if (mc_opt.case_id) return mc_replay(gen_layered, exec_layered, mc_opt.case_id);
+    if (mc_explore(gen_layered, exec_layered, 0, 0)) mc_st->bound_completed = 0;
     mc_finish();
     return 0;
   }
